@@ -6,31 +6,37 @@ LEVEL = "exploration"
 MANIFEST = {
     "engine": "tlc ObjFile rows + vhpack c01 + git hash-object/cat-file",
     "technique": "TLC enumerates entry point x type x object format x content class (writing) and header/body mutations (reading) of spec/rules/ObjFile.tla with the header tokens, fan-out placement and read verdict; each row is executed through the real go-git entry point on a directory that git also reads (hash-object, cat-file --batch) and, conversely, git-written objects are read through go-git",
-    "text": "348 writing rows: {SetEncodedObject, RawObjectWriter, LazyWriter, Worktree.Add, ObjectHasher/MemoryObject, and SetEncodedObject / LazyWriter / read-back of git-written objects on one live Storage handle switched with SetObjectFormat after creation} x {blob,tree,commit,tag} x {sha1,sha256} x {empty, 1 byte, NUL-containing, 'blob 3\\0'-prefixed, 70 KB (> LargeObjectThreshold), 1 MiB}; 96 reading rows: 16 header/body mutations x 3 contents x 2 formats, read with LargeObjectThreshold 0 and 64 KiB; every git-written object read back by go-git.",
+    "text": "348 writing rows: {SetEncodedObject, RawObjectWriter, LazyWriter, Worktree.Add, ObjectHasher/MemoryObject, and SetEncodedObject / LazyWriter / read-back of git-written objects on one live Storage handle switched with SetObjectFormat after creation} x {blob,tree,commit,tag} x {sha1,sha256} x {empty, 1 byte, NUL-containing, 'blob 3\\0'-prefixed, 70 KB (> LargeObjectThreshold), 1 MiB}; 96 reading rows: 16 header/body mutations x 3 contents x 2 formats, read with LargeObjectThreshold 0 and 64 KiB; every git-written object read back by go-git. Writer life cycles: every interleaving of open / write / close / repeated close of 2 (quick; 3 in thorough, one repeated close) loose-object writers over {RawObjectWriter, LazyWriter, SetEncodedObject}, each after no / a raw / a lazy earlier writer that was closed twice, replayed in one process; every closed writer's object is read back by go-git at once and by git cat-file --batch at the end.",
     "note": "Honest limit: the TLA+ spec treats the digest H and zlib as uninterpreted; that go-git's SHA-1/SHA-256 and zlib agree with git's is decided by git itself (hash-object computes the expected id, cat-file reads go-git's files), i.e. by testing over the enumerated rows, not by the model. Length-rule mutations (size+-1, trailing garbage) are 'lenient': git cat-file's streaming path accepts them, so nothing is asserted. Contents of non-blob types are arbitrary bytes (--literally).",
 }
 
 CFG = """CONSTANTS
  Emit = TRUE
+ NW = %d
+ MaxReclose = %d
 INIT Init
 NEXT Next
-INVARIANTS O_HeaderShape O_FanOut O_OnlyValid O_HeaderGrammarRejects EmitRow
+INVARIANTS O_HeaderShape O_FanOut O_OnlyValid O_HeaderGrammarRejects L_OwnStepsOnly L_RecloseNoop L_Monotone EmitRow
 CHECK_DEADLOCK FALSE
 """
 
 
 def run(ctx):
-    r = ctx.tlc("ObjFile", cfg_text=CFG, timeout=600)
+    nw, mr = (3, 1) if ctx.thorough else (2, 2)
+    r = ctx.tlc("ObjFile", cfg_text=CFG % (nw, mr), timeout=900)
     rows = ctx.printed_json(r)
-    if len(rows) != r.distinct or not rows:
+    # (life-cycle histories are printed only when every writer is closed: fewer rows than states)
+    if not rows or not any(x.get("dir") == "life" for x in rows) or not any(x.get("dir") == "write" for x in rows):
         raise vlib.ToolingError("ObjFile: %d rows printed for %d states" % (len(rows), r.distinct))
+    # table rows first, then the life-cycle histories (one process replays them in this order)
+    rows.sort(key=lambda x: (1 if x.get("dir") == "life" else 0, json.dumps(x, sort_keys=True)))
     p = ctx.path("c01_rows.ndjson")
     with open(p, "w") as f:
         for row in rows:
             f.write(json.dumps(row) + "\n")
     ctx.vh("c01", [p], pkg="vhpack", timeout=1800)
     ctx.cov["traces_validated_against_impl"] = len(rows)
-    ctx.cov["bounds"] = {"rows": len(rows), "entry_points": 8, "types": 4, "formats": 2, "content_classes": 6, "read_mutations": 16}
+    ctx.cov["bounds"] = {"rows": len(rows), "entry_points": 8, "types": 4, "formats": 2, "content_classes": 6, "read_mutations": 16, "life_writers": nw, "life_max_reclose": mr, "life_histories": sum(1 for x in rows if x.get("dir") == "life")}
     ctx.cov["exhaustive"] = True
     ctx.cov["rule"] = "one case = one ObjFile row (a TLC state); the content bytes of a row are salted by row number and seed so that rows do not collide; both tiers run the whole table"
     ctx.assumptions += ["digest and zlib equality are delegated to git (hash-object / cat-file on the same directory)",
